@@ -246,6 +246,136 @@ def local_macro_oracle(chk, rng, thorough):
                                  "exec(compile(hy_compile(hy.read_many(src), module))); module.result")
 
 
+RENAMED_TEMPLATES = [
+    # (program; %(op)s and/or, %(v0)s the value of the renamed user variable, %(s)s a statement-producing operand of value v1)
+    ("let", "(let [x %(v0)s] (setv r [(%(op)s x %(s)s)]) [r x])"),
+    ("let", "(let [x %(v0)s] (setv r (f 100 (%(op)s x %(s)s))) [r x])"),
+    ("let", "(let [x %(v0)s] (setv r (%(op)s x %(s)s)) [[r] x])"),
+    ("let", "(let [x %(v0)s y x] [[(%(op)s y %(s)s)] y])"),
+    ("let", "(defn g [] (let [x %(v0)s] [[(%(op)s x %(s)s)] x]))\n(g)"),
+    ("let", "(let [x %(v0)s] [[(%(op)s x %(s)s (note))] x])"),
+    ("except", "(try (raise (E %(v0)s)) (except [e E] (setv r [(%(op)s (ok e) %(s)s)]) [r (get e.args 0)]))"),
+    ("except", "(try (raise (E %(v0)s)) (except [e E] (setv e (get e.args 0)) (setv r [(%(op)s e %(s)s)]) [r e]))"),
+    ("gensym", "(defmacro m [a b] (setv g (hy.gensym)) `(do (setv ~g ~a) [[(%(op)s ~g ~b)] ~g]))\n(m %(v0)s %(s)s)"),
+    ("gensym", "(defmacro m [a b] (setv g (hy.gensym \"x\")) `(let [~g ~a] [[(%(op)s ~g ~b)] ~g]))\n(m %(v0)s %(s)s)"),
+]
+RENAMED_VALUES = [("0", 0), ("1", 1), ("None", None), ("\"a\"", "a"), ("\"\"", ""), ("7", 7), ("False", False), ("[]", [])]
+RENAMED_STMTS = ["(do (note) %s)", "(do (setv q 1) %s)", "(if (c) (do (note) %s) %s)", "(do (note) (note) %s)"]
+
+
+def renamed_variable_oracle(chk, rng, n):
+    """and/or whose leading operand is a USER variable that the compiler spells with a reserved name (let-bound, the
+    variable of an except clause, a gensym of a macro expansion), with a later statement-producing operand: the and/or
+    value is Python's, and the variable still holds its own value afterwards"""
+    hy = vlib.use_repo_in_process()
+    for i in range(n):
+        kind, tpl = RENAMED_TEMPLATES[i % len(RENAMED_TEMPLATES)]
+        op = rng.choice(["and", "or"])
+        (t0, v0), (t1, v1) = rng.choice(RENAMED_VALUES), rng.choice(RENAMED_VALUES)
+        st = rng.choice(RENAMED_STMTS)
+        st = st % ((t1,) * st.count("%s"))
+        src = tpl % {"op": op, "v0": t0, "s": st}
+        lead = v0
+        if "(ok e)" in src:
+            lead = True               # (ok e) is truthy whatever e holds; the variable read afterwards is e
+        elif "(get e.args 0)" in src and kind == "except":
+            lead = v0
+        val = (lead and v1) if op == "and" else (lead or v1)
+        if "(note))] x]" in src:      # a third, plain operand (note) -> None
+            val = (val and None) if op == "and" else (val or None)
+        if "(ok e)" in src:
+            val = (True and v1) if op == "and" else True
+        if "(f 100" in src:
+            want = [[100, val], v0]
+        elif "[[r] x]" in src:
+            want = [[val], v0]
+        else:
+            want = [[val], v0]
+        notes = []
+        env = {"note": lambda: notes.append(1), "c": lambda: True, "f": lambda a, b: [a, b], "ok": lambda e: True,
+               "E": type("E", (Exception,), {})}
+        try:
+            got = hy.eval(hy.read_many(src), env)
+        except Exception as e:
+            got = "raises %s: %s" % (type(e).__name__, str(e)[:80])
+        chk.count("renamed-variable:" + kind)
+        chk.case("R:" + src, nontrivial=True, sample={"program": src, "value": repr(got)} if i % 97 == 3 else None)
+        if repr(got) != repr(want):
+            chk.fail("user-variable-clobbered", {"program": src}, repr(got), repr(want),
+                     "hy.eval(hy.read_many(src), env) with note/c/f/ok/E as in props/c12.py renamed_variable_oracle")
+
+
+def handler_variable_oracle(chk, rng, n):
+    """try forms nested in handler bodies (and in finally / else / function bodies), the handlers binding the same or
+    different user names: every except clause gets an introduced variable of its own (no two ExceptHandler nodes of one
+    compilation share a name), and each user variable still holds its own exception after an inner handler has run"""
+    hy = vlib.use_repo_in_process()
+    from hy.compiler import hy_compile
+    names = ["e", "err", "x!", "e"]
+    for i in range(n):
+        depth = 2 + (i % 3 == 2) + (rng.random() < 0.2)
+        same = i % 4 != 3
+        nm = [rng.choice(names)] * depth if same else [rng.choice(names) for _ in range(depth)]
+        fires = [True] + [(rng.random() < 0.8) for _ in range(depth - 1)]
+        where = [rng.choice(["body", "body", "finally"]) for _ in range(depth)]
+
+        def build(level):
+            """returns (source, expected notes)"""
+            if level == depth:
+                return None, []
+            inner, ilog = build(level + 1)
+            raise_ = '(raise (E%d "m%d"))' % (level, level) if fires[level] else '(note "quiet%d")' % level
+            hb = []
+            log = [] if fires[level] else ["quiet%d" % level]
+            if fires[level]:
+                if inner is not None and where[level] == "body":
+                    hb.append(inner)
+                    log += ilog
+                hb.append("(note (str %s))" % nm[level])
+                log.append("m%d" % level)
+                if rng.random() < 0.3:
+                    hb.append("(note (get %s.args 0))" % nm[level])
+                    log.append("m%d" % level)
+            else:
+                hb.append('(note "never")')
+            src = "(try %s (except [%s E%d] %s)" % (raise_, nm[level], level, " ".join(hb))
+            if inner is not None and where[level] == "finally":
+                src += " (finally %s)" % inner
+                log += ilog
+            return src + ")", log
+        src, want = build(0)
+        ctx = i % 3
+        full = src if ctx == 0 else "(defn f [] %s)\n(f)" % src if ctx == 1 else "(setv r %s)" % src
+        notes = []
+        env = {"note": notes.append}
+        for k in range(depth):
+            env["E%d" % k] = type("E%d" % k, (Exception,), {})
+        try:
+            tree = hy_compile(hy.read_many(full), types.ModuleType("hyverif_c12h"), import_stdlib=False)
+        except Exception as e:
+            chk.case("H:" + full, nontrivial=False)
+            chk.fail("handler-variable-does-not-compile", {"program": full}, type(e).__name__ + ": " + str(e)[:100], "compiles", "hy_compile")
+            continue
+        hn = [h.name for h in ast.walk(tree) if isinstance(h, ast.ExceptHandler) and h.name]
+        chk.count("handler-variable:depth %d:%s" % (depth, "same name" if same else "mixed names"))
+        chk.case("H:" + full, nontrivial=True, sample={"program": full, "handler_names": hn} if i % 97 == 5 else None)
+        dup = sorted({x for x in hn if hn.count(x) > 1})
+        if dup:
+            chk.fail("handler-variables-share-a-name", {"program": full, "name": dup[0]}, "ExceptHandler names %r" % hn,
+                     "one introduced name per except clause", "hy_compile; ExceptHandler.name of every handler")
+        for x in hn:
+            if not x.startswith("_hy_") or hy.mangle(x) != x:
+                chk.fail("invented-name", {"program": full, "name": x}, x, "_hy_-prefixed, mangle-stable", "hy_compile; ExceptHandler.name")
+        try:
+            exec(compile(tree, "<hyverif_c12h>", "exec"), env)
+            got = notes
+        except Exception as e:
+            got = notes + ["raises %s: %s" % (type(e).__name__, str(e)[:80])]
+        if got != want:
+            chk.fail("handler-variable-lost", {"program": full}, repr(got), repr(want),
+                     "exec of hy_compile(hy.read_many(src)) with note = list.append and E0.. exception classes")
+
+
 def let_oracle(chk, rng, n):
     """a let that binds one name several times gives every binding its own temporary: closures created between two
     bindings of a name keep seeing the earlier one"""
@@ -313,3 +443,5 @@ def run(chk):
     template_oracle(chk, rng, 40 if thorough else 6)
     local_macro_oracle(chk, rng, thorough)
     let_oracle(chk, rng, 4000 if thorough else 400)
+    renamed_variable_oracle(chk, rng, 3000 if thorough else 300)
+    handler_variable_oracle(chk, rng, 2000 if thorough else 240)
